@@ -131,6 +131,9 @@ def run(ctx):
     rtasks = [dict(simname=s, kind=k, pre=p) for s in SIMS
               for k in ('list', 'dict', 'func', 'short_list_pad')
               for p in ((), ('synthesize',), ('optimize',))]
+    # data wider than 16 / 32 / 64 bits (the compiled back end picks a C element type per width)
+    rtasks += [dict(simname=s, kind=k, pre=(), dw=dw, aw=2) for s in SIMS for k in ('list', 'func')
+               for dw in (9, 17, 32, 33, 64, 65, 70)]
     rres = passcheck.pmap(_rom, rtasks)
     for t, r in zip(rtasks, rres):
         if r.get('crashed'):
@@ -143,7 +146,8 @@ def run(ctx):
     ctx.family('C08.rom', 'B', instances=len(rtasks), evaluations=len(rtasks) * 8,
                nontrivial=len(rtasks), exhaustive=True,
                bound='every address of an 8-word ROM; list/dict/function/padded data; 3 simulators; '
-                     'plain/synthesized/optimized', sample=rtasks[0])
+                     'plain/synthesized/optimized; data widths up to 70 bits; each ROM rebuilt twice in one '
+                     'process under the same name with different contents', sample=rtasks[0])
     ctx.assume('Verilog memory emission is covered by C05; multi-port/wide memories in the C02/C03/C04 families')
     return ctx.finish('proof', './check C08',
                       ['z3', 'pyvc', 'int theory of DESIGN 3.2'],
